@@ -24,6 +24,7 @@ import (
 	"github.com/arloliu/go-secs/v2/hsms"
 	"github.com/arloliu/go-secs/v2/hsmsss"
 	"github.com/arloliu/go-secs/v2/logger"
+	"github.com/arloliu/go-secs/v2/secs1"
 	"github.com/arloliu/go-secs/v2/secs2"
 )
 
@@ -127,12 +128,19 @@ type Peer struct {
 	// Held holds W-bit primaries the peer has not answered (Mute), so a scenario can answer later.
 	hmu  sync.Mutex
 	Held [][]byte
+
+	// SECS-I line state (nil channels for HSMS-SS)
+	s1     bool
+	s1in   chan byte
+	s1out  chan s1Req
+	s1last string
 }
 
 // Env is one connection under test plus its generations.
 type Env struct {
-	Conn hsmsss.Connection
-	Core hsms.Connection
+	Conn  hsms.Connection
+	Core  hsms.Connection
+	Secs1 bool // the connection under test is SECS-I over TCP (else HSMS-SS)
 
 	mu     sync.Mutex
 	events []Event
@@ -188,18 +196,21 @@ type Options struct {
 	CloseTimeout       time.Duration
 	Backoff            time.Duration
 	QueueSize          int
+	Secs1              bool          // SECS-I transport (equipment role) instead of HSMS-SS
+	T2                 time.Duration // SECS-I line timers
+	Retry              int
 }
 
 // DefaultOptions are quiet, fast timers: every protocol timer far above a normal round trip.
 func DefaultOptions() Options {
-	return Options{T3: 2 * time.Second, T5: 50 * time.Millisecond, T6: 2 * time.Second, T7: 2 * time.Second, T8: 2 * time.Second,
+	return Options{T3: 2 * time.Second, T5: 50 * time.Millisecond, T6: 2 * time.Second, T7: 10 * time.Second, T8: 2 * time.Second,
 		WriteTimeout: 2 * time.Second, CloseTimeout: 2 * time.Second, Backoff: 2 * time.Millisecond, QueueSize: 64}
 }
 
 // NewEnv builds (does not open) an active HSMS-SS connection dialling scripted peers.
 func NewEnv(o Options) (*Env, error) {
 	e := &Env{calls: map[int]*Call{}, byGo: map[int64]*Call{}, stallCall: map[int]chan struct{}{}, inHook: make(chan int, 64),
-		CloseTimeout: o.CloseTimeout, T3: o.T3, SessionID: 7}
+		CloseTimeout: o.CloseTimeout, T3: o.T3, SessionID: 7, Secs1: o.Secs1}
 	dial := func(ctx context.Context, network, address string) (net.Conn, error) {
 		n := int(e.dials.Load())
 		e.Attempts.Add(1)
@@ -213,6 +224,10 @@ func NewEnv(o Options) (*Env, error) {
 		}
 		a, b := net.Pipe()
 		p := &Peer{Gen: n, Conn: b, env: e, EOF: make(chan struct{}), closed: make(chan struct{}), resume: make(chan struct{}, 1)}
+		if o.Secs1 {
+			p.s1, p.s1in, p.s1out = true, make(chan byte, 1<<16), make(chan s1Req, 64)
+			p.Selected.Store(true)
+		}
 		if e.OnGen != nil {
 			e.OnGen(p)
 		}
@@ -221,7 +236,11 @@ func NewEnv(o Options) (*Env, error) {
 		e.mu.Unlock()
 		e.dials.Add(1)
 		e.record(Event{Typ: 'U', G: n})
-		go p.readLoop()
+		if p.s1 {
+			go p.s1Loop()
+		} else {
+			go p.readLoop()
+		}
 		return a, nil
 	}
 	copts := []hsms.ConnOption{
@@ -238,20 +257,42 @@ func NewEnv(o Options) (*Env, error) {
 	if o.QueueSize > 0 {
 		copts = append(copts, hsms.WithSenderQueueSize(o.QueueSize))
 	}
-	hopts := []hsmsss.Option{hsmsss.WithActive(), hsmsss.WithDialer(dial)}
-	for _, c := range copts {
-		hopts = append(hopts, hsmsss.WithConnectionOption(c))
-	}
-	cfg, err := hsmsss.NewConfig("pipe", 5000, hopts...)
-	if err != nil {
-		return nil, err
-	}
-	conn, err := hsmsss.New(cfg)
-	if err != nil {
-		return nil, err
+	var conn hsms.Connection
+	if o.Secs1 {
+		t2, retry := o.T2, o.Retry
+		if t2 <= 0 {
+			t2 = 30 * time.Millisecond
+		}
+		sopts := []secs1.Option{secs1.WithActive(), secs1.WithDialer(dial), secs1.WithEquipment(), secs1.WithDeviceID(e.SessionID),
+			secs1.WithT1(200 * time.Millisecond), secs1.WithT2(t2), secs1.WithT4(time.Second), secs1.WithRetryLimit(retry), secs1.WithT5(o.T5)}
+		for _, c := range copts {
+			sopts = append(sopts, secs1.WithConnectionOption(c))
+		}
+		cfg, err := secs1.NewConfig("pipe", 5000, sopts...)
+		if err != nil {
+			return nil, err
+		}
+		sc, err := secs1.New(cfg)
+		if err != nil {
+			return nil, err
+		}
+		conn, e.Core = sc, secs1.VerifCore(sc)
+	} else {
+		hopts := []hsmsss.Option{hsmsss.WithActive(), hsmsss.WithDialer(dial)}
+		for _, c := range copts {
+			hopts = append(hopts, hsmsss.WithConnectionOption(c))
+		}
+		cfg, err := hsmsss.NewConfig("pipe", 5000, hopts...)
+		if err != nil {
+			return nil, err
+		}
+		hc, err := hsmsss.New(cfg)
+		if err != nil {
+			return nil, err
+		}
+		conn, e.Core = hc, hsmsss.VerifCore(hc)
 	}
 	e.Conn = conn
-	e.Core = hsmsss.VerifCore(conn)
 	if e.Core == nil || !hsms.VerifSetSendHooks(e.Core, e.afterWriteLock, nil) {
 		return nil, errors.New("genx: cannot install send hooks")
 	}
@@ -356,15 +397,18 @@ func (e *Env) asyncErr(msg hsms.Message, err error) {
 		return
 	}
 	tok, _, ok := parseBody(dm.ToBytes()[14:])
-	if !ok {
-		return
+	var c *Call
+	if ok {
+		e.mu.Lock()
+		c = e.calls[int(tok)]
+		e.mu.Unlock()
 	}
-	e.mu.Lock()
-	c := e.calls[int(tok)]
-	e.mu.Unlock()
 	if c != nil {
 		atomic.AddInt32(&c.AsyncErr, 1)
 		e.record(Event{Typ: 'E', C: c.ID, K: c.Kind, R: classify(err)})
+	} else {
+		// a data frame the library sent on its own (S9F9 after a T3 in the equipment role)
+		e.record(Event{Typ: 'E', C: -1, K: KAsync, R: classify(err)})
 	}
 }
 
@@ -455,6 +499,9 @@ func (e *Env) Start(kind int, ctx context.Context) *Call {
 	return c
 }
 
+// OnWire reports whether a peer has read the call's frame.
+func (c *Call) OnWire() bool { return atomic.LoadInt32(&c.WireGen) >= 0 }
+
 // Done is closed when the call returned.
 func (c *Call) Done() <-chan struct{} { return c.done }
 
@@ -481,6 +528,9 @@ func frame(sid uint16, b2, b3, ptype, stype byte, sys [4]byte, body []byte) []by
 }
 
 func (p *Peer) write(f []byte) error {
+	if p.s1 {
+		return p.s1Write(f)
+	}
 	p.wmu.Lock()
 	defer p.wmu.Unlock()
 	_ = p.Conn.SetWriteDeadline(time.Now().Add(5 * time.Second))
@@ -496,8 +546,8 @@ func (p *Peer) WriteRaw(b []byte) error { return p.write(b) }
 func (p *Peer) SendData(f []byte) error {
 	err := p.write(f)
 	if err == nil {
-		p.DataSent.Add(1)
 		p.env.record(Event{Typ: 'D', G: p.Gen})
+		p.DataSent.Add(1)
 	}
 	return err
 }
@@ -516,6 +566,19 @@ func (p *Peer) Primary(n uint32) error {
 	var sys [4]byte
 	binary.BigEndian.PutUint32(sys[:], 0x80000000|n)
 	return p.SendData(frame(p.env.SessionID, 1, 13, 0, 0, sys, body(n, uint32(p.Gen)).ToBytes()))
+}
+
+// PrimaryUncounted writes an unsolicited primary that the connection under test must NOT count as
+// received (the scenario sends it while the connection is not Selected): no D event, no DataSent.
+func (p *Peer) PrimaryUncounted(n uint32) error {
+	var sys [4]byte
+	binary.BigEndian.PutUint32(sys[:], 0x80000000|n)
+	return p.write(frame(p.env.SessionID, 1, 13, 0, 0, sys, body(n, uint32(p.Gen)).ToBytes()))
+}
+
+// OpenBackground opens without waiting for Selected.
+func (e *Env) OpenBackground() error {
+	return e.Conn.Open(context.Background(), hsms.OpenBackground)
 }
 
 // RejectF answers f with Reject.req; the reason byte carries 10 + the peer's generation (the
@@ -549,6 +612,40 @@ func (p *Peer) Resume() {
 	select {
 	case p.resume <- struct{}{}:
 	default:
+	}
+}
+
+// onData handles one complete data frame read from the connection under test (internal layout).
+func (p *Peer) onData(f []byte) {
+	// the wire event is recorded BEFORE the independent count moves: a snapshot taken once the
+	// counts agree then has every wire event in front of it
+	defer p.DataRecv.Add(1)
+	tok, _, ok := parseBody(f[14:])
+	var c *Call
+	if ok {
+		p.env.mu.Lock()
+		c = p.env.calls[int(tok)]
+		p.env.mu.Unlock()
+	}
+	if c != nil {
+		atomic.StoreInt32(&c.WireGen, int32(p.Gen))
+		p.env.record(Event{Typ: 'W', G: p.Gen, C: c.ID, K: c.Kind})
+	} else {
+		// a data frame the library sent on its own (S9F9 after a T3 in the equipment role): an
+		// anonymous async data send, counted by the data-sent counter like any other
+		p.env.record(Event{Typ: 'W', G: p.Gen, C: -1, K: KAsync})
+	}
+	if f[6]&0x80 != 0 { // W-bit primary
+		switch {
+		case p.RejectAll.Load() && !p.s1:
+			go func() { _ = p.RejectF(f) }()
+		case p.Mute.Load() || p.RejectAll.Load():
+			p.hmu.Lock()
+			p.Held = append(p.Held, f)
+			p.hmu.Unlock()
+		default:
+			go func() { _ = p.Reply(f) }()
+		}
 	}
 }
 
@@ -599,29 +696,7 @@ func (p *Peer) readLoop() {
 				go func() { _ = p.write(rsp) }()
 			}
 		case 0: // data
-			p.DataRecv.Add(1)
-			tok, _, ok := parseBody(f[14:])
-			if ok {
-				p.env.mu.Lock()
-				c := p.env.calls[int(tok)]
-				p.env.mu.Unlock()
-				if c != nil {
-					atomic.StoreInt32(&c.WireGen, int32(p.Gen))
-					p.env.record(Event{Typ: 'W', G: p.Gen, C: c.ID, K: c.Kind})
-				}
-			}
-			if f[6]&0x80 != 0 { // W-bit primary
-				switch {
-				case p.RejectAll.Load():
-					go func() { _ = p.RejectF(f) }()
-				case p.Mute.Load():
-					p.hmu.Lock()
-					p.Held = append(p.Held, f)
-					p.hmu.Unlock()
-				default:
-					go func() { _ = p.Reply(f) }()
-				}
-			}
+			p.onData(f)
 		}
 	}
 }
